@@ -450,7 +450,21 @@ pub fn deep_sessions(tier: &str) -> Acc {
             cases.push((r.to_string(), *d));
         }
     }
+    // game records of every length 0..=14 in which both sides shuffle (the root's repetition handling looks 4, 5 and
+    // more plies back into the record): `position <root> moves <k plies>; go depth 2` must be answered whatever k is
+    let shuffles: [(&str, [&str; 4]); 3] = [
+        ("rnbqkbnr/pppppppp/8/8/8/8/PPPPPPPP/RNBQKBNR w KQkq - 0 1", ["g1f3", "g8f6", "f3g1", "f6g8"]),
+        ("7k/8/8/8/8/8/8/K7 w - - 0 1", ["a1b1", "h8g8", "b1a1", "g8h8"]),
+        ("4k3/8/8/8/8/8/8/R3K3 w Q - 0 1", ["a1a2", "e8e7", "a2a1", "e7e8"]),
+    ];
+    for (root, sh) in shuffles {
+        for k in 0..=14usize {
+            let mv: Vec<&str> = (0..k).map(|i| sh[i % 4]).collect();
+            cases.push((format!("{} moves {}", root, mv.join(" ")).trim_end_matches(" moves ").to_string(), 2));
+        }
+    }
     par_items(&cases, &|_, (root, d), acc| {
+        let root = &if root.ends_with(" moves") { root.trim_end_matches(" moves").to_string() } else { root.clone() };
         let script = vec![format!("position fen {}", root), format!("go depth {}", d), "wait".to_string(), "isready".to_string(), format!("position fen {}", root), "go depth 2".to_string(), "wait".to_string(), "isready".to_string(), "quit".to_string()];
         acc.states += 1;
         acc.evaluations += 1;
@@ -703,7 +717,7 @@ pub fn run(tier: &str, seed: i64) -> Outcome {
     let (mut acc, mut reports) = (acc, reports);
     let t1 = std::time::Instant::now();
     let deep = deep_sessions(tier);
-    reports.push(SpaceReport { name: "deep sessions: `position tiny; go depth N; wait; isready; position; go depth 2; wait; isready; quit` for N up to 255 on 4 tiny roots, sequential schedule at native speed".into(), states: deep.states, exhaustive: true, note: format!("[{:.1}s]", t1.elapsed().as_secs_f64()) });
+    reports.push(SpaceReport { name: "deep sessions: `position tiny; go depth N; wait; isready; position; go depth 2; wait; isready; quit` for N up to 255 on 4 tiny roots, and the same with shuffle game records of every length 0..=14 on 3 roots, sequential schedule at native speed".into(), states: deep.states, exhaustive: true, note: format!("[{:.1}s]", t1.elapsed().as_secs_f64()) });
     acc.merge(deep);
     let t2 = std::time::Instant::now();
     let gram = grammar_sessions(tier);
